@@ -201,10 +201,20 @@ Fixpoint bc_visit_und (d : nat) (g : graph) (cur : nat) (path : list nat) : opti
                                 end) (rev (snd r)) (Some (fst r))
   end.
 
+(** Repair proposed for defect D22 (not in the code unless [visit_others] is true, see below): after
+    the given roots, one start node (the first) of every component that contains no root,
+    [rooted = set(cc_labels[root])], components in increasing label order. *)
+Definition other_starts (comp : list nat) (root : list nat) : list nat :=
+  let rooted := map (nthn comp) root in
+  map (first_with_label comp) (filter (fun l => negb (memn l rooted)) (np_unique comp)).
+
 (** [root]: an int is the singleton list. [comp1]: oracle answer inside is_acyclic (input matrix);
-    [comp2]: oracle answer for the matrix without self-loops (directed branch only). *)
-Definition break_cycles (g : graph) (root : list nat) (directed : option bool) (comp1 comp2 : list nat)
-  : result graph :=
+    [comp2]: oracle answer for the matrix without self-loops (directed branch; repaired undirected
+    branch). [visit_others] says whether the undirected branch also starts from the components
+    without root — [false] for the code as it stands; the value used by the check is re-extracted from
+    the source on every run (Gen/CyclesCode.v). *)
+Definition break_cycles (visit_others : bool) (g : graph) (root : list nat) (directed : option bool)
+           (comp1 comp2 : list nat) : result graph :=
   match is_acyclic g directed comp1 with
   | Err e => Err e
   | Ok true => Ok g
@@ -231,10 +241,11 @@ Definition break_cycles (g : graph) (root : list nat) (directed : option bool) (
                   end
               end
             else
+              let starts := if visit_others then root ++ other_starts comp2 root else root in
               match fold_left (fun acc s => match acc with
                                             | Some ga => bc_visit_und (S n) ga s [s]
                                             | None => None
-                                            end) root (Some g0) with
+                                            end) starts (Some g0) with
               | Some r => Ok r
               | None => Err OutOfFuel
               end
